@@ -21,7 +21,7 @@ CHECKS = {
              "{wait 0/2/INF, terminate, kill, three stop sequences}, every point at which the child's end can be released relative to the "
              "library's poll/kill/waitpid/close calls (all alternatives at blocked calls, up to 2 scheduling deviations elsewhere) and, in the "
              "thorough tier, every single fault at poll/waitpid/kill (waitpid also answering ECHILD: somebody else reaped the child, after which no status may "
-             "ever be returned): status equals the ending the harness caused, is never returned while the "
+             "ever be returned) and two-handle configurations (the first started with input and given up while the second child runs): status equals the ending the harness caused, is never returned while the "
              "child ledger says running, is stable with zero further system calls, exactly one successful reap, no zombie."),
     "C04": dict(
         cat="model_checking", design="3/C04",
@@ -65,20 +65,20 @@ CHECKS = {
              "clock and never after the child's exit; status iff reaped and exact; ETIMEDOUT iff every slot ran and no wait could have seen the exit; "
              "EINVAL only at a reached out-of-range slot; a hang only inside an infinite slot with a child that cannot end. Every 11th (quick) / 3rd (thorough) "
              "configuration additionally under one failing kill() or one poll() interrupted by a signal after any elapsed time: the error is returned at "
-             "that instant, nothing later. The handle state 'exited, reap interrupted' for every 8th triple (quick) / all (thorough)."),
+             "that instant, nothing later. The handle state 'exited, reap interrupted' for every 8th triple (quick) / all (thorough); a handle restarted after a failed start with a deadline."),
     "C15": dict(
         cat="model_checking", design="3/C15",
         technique="stateless model checking of the real library: the C07 space driven through options.stop + reproc_destroy, plus handle-state enumeration",
         text="The C07 space through reproc_start(options.stop) + reproc_destroy (no result: judged from the child ledger, signals and virtual return "
              "time), the default policy (returns only with the child reaped, SIGTERM not before the deadline and never without one), destroy on "
              "NULL / never started / failed start / rejected options (no kill, poll, waitpid or close; ledgers clean), the forked side (h_start), and a "
-             "handle whose first start failed with a deadline before the real start without one, and a handle whose child has exited but whose reap was "
+             "handle whose first start failed with a deadline before the real start without one, the deadline given as REPROC_INFINITE, and a handle whose child has exited but whose reap was "
              "interrupted (an earlier wait returned EINTR)."),
     "C08": dict(
         cat="model_checking", design="3/C08",
         technique="stateless model checking of the real library under a virtual clock: exhaustive enumeration of source orders/deadlines/timeouts x blocked-call outcomes (every elapsed millisecond, timeout expiry, signal interruption) x clock-read deviations",
         text="reproc_wait: timeout {0,1,2,3,INFINITE,DEADLINE} x deadline {none,1,2,3,INT_MAX} x child {idle, exits at any point, two waits, fork mode, exited "
-             "before the call, call 4 ms late with the child exited / idle, idle on a handle whose first start with a 1 ms deadline failed}. "
+             "before the call, call 4 ms late with the child exited / idle, idle on a handle whose first start with a 1 ms deadline failed}. Poll sources also {deadline 2 ms, exited and waited for}. "
              "reproc_poll: 1..2 (thorough 3) sources in every order, each {no process, no deadline, deadline 1/2/3 ms, already expired} x interests "
              "{EXIT, OUT, OUT|EXIT} x timeout {0,1,2,3,INFINITE} x children {idle, write, exit}, polled twice. Every alternative at every blocked OS "
              "poll (child event after each elapsed ms, expiry, EINTR after each elapsed ms) and clock jumps at clock reads, one deviation (quick) / two "
@@ -104,7 +104,7 @@ CHECKS = {
              "for small payloads) and at every blocked read/write/poll. Position-dependent payload: every returned byte is compared with what the child "
              "wrote at that offset (kernel write order for the merged stream); EPIPE only once the child has closed every descriptor on the stream and all "
              "bytes were returned, then sticky without a system call; stdin bytes and EOF arrive; a blocked read after the child closed the stream is a violation; "
-             "after a write was refused because the reader is gone, no later write is accepted or lands in a descriptor the caller opened since."),
+             "after a write was refused because the reader is gone, no later write is accepted or lands in a descriptor the caller opened since; the child's own pipe ends are blocking."),
     "C16": dict(
         cat="model_checking", design="3/C16",
         technique="stateless model checking of the real library: exhaustive interleavings x sink failure position x allocation-failure position x deadline expiry point, protocol oracle over the recorded sink calls",
@@ -113,7 +113,7 @@ CHECKS = {
              "deadline {none, 1..3 ms} expiring before/between/after output, through reproc_drain and reproc_run_ex. Oracle: two initial (in, 0) calls, "
              "chunks equal the stream byte for byte, exactly one size-0 call per piped stream after its data, 0 iff both ended, first non-zero sink value "
              "returned with no later call, ETIMEDOUT only at the deadline and no call inside drain still blocked after it, string = previous content + bytes "
-             "(intact after ENOMEM), run_ex = exit status (also after a positive sink result, which only stops the draining). The reproc++ templates reproc::drain / reproc::run with lambda sinks and sink::string are "
+             "(intact after ENOMEM), run_ex = exit status (also after a positive sink result, which only stops the draining); drain on a handle restarted after a failed start with a deadline. The reproc++ templates reproc::drain / reproc::run with lambda sinks and sink::string are "
              "instantiated in a C++ harness (h_c16_cxx) over the same interposed C objects and judged by the same protocol clauses."),
     "C17": dict(
         cat="model_checking", design="3/C17",
@@ -131,7 +131,7 @@ CHECKS = {
              "streams closed with fclose() (28); descriptors closed first so that the user's FILEs/handles themselves sit on 0-2 (868); thorough adds nonblocking. For each stream the helper's hello must show exactly the requested object "
              "with the right direction (pipe inode matched to a descriptor the parent holds in the opposite direction; the parent's own stream or "
              "the null device when it has none; same open file as fd 1 for STDOUT; the supplied handle/FILE; the path's inode opened read/write-only), "
-             "no FD_CLOEXEC left, the API answers EPIPE exactly for non-pipe streams, and the library never tries to close an object the caller lent it. A clean failure of a valid combination is a violation."),
+             "no FD_CLOEXEC left, the API answers EPIPE exactly for non-pipe streams, and the library never tries to close an object the caller lent it; HANDLE/FILE/PATH targets also named by their member alone (216). A clean failure of a valid combination is a violation."),
     "C11": dict(
         cat="model_checking", design="3/C11",
         technique="exhaustive enumeration of parent descriptor pools x limits x redirect kinds against the real library and a real exec; the child lists every descriptor it was started with",
@@ -139,7 +139,7 @@ CHECKS = {
              "open+close-on-exec (243) x redirects {default, pipes, discard, user handles, user FILEs without close-on-exec}, plus the whole C10 space: "
              "the started program sees 0, 1, 2 and exactly one more descriptor, the write end of a pipe whose read end the parent holds and that is none "
              "of the streams; the caller's own descriptors are still open afterwards; two starts with the limit raised in between, the second also in fork mode "
-             "while the first child runs, also with stderr taken from standard descriptor 1 (the forked side lists its descriptors). Concurrent starts from threads are decided by the C20 harness."),
+             "while the first child runs, also with stderr taken from standard descriptor 1 (the forked side lists its descriptors); the descriptor limit unreadable or infinite in the forked child with the caller's descriptors above 1024. Concurrent starts from threads are decided by the C20 harness."),
     "C13": dict(
         cat="model_checking", design="3/C13 + Appendix A",
         technique="exhaustive enumeration of the option space against the real validation code with an independent reference of the documented rules; resource-creating libc calls are intercepted, counted and refused, valid combinations are spawned for real",
@@ -148,7 +148,7 @@ CHECKS = {
              "compared with ref_opts (a transcription of reproc.h and the property, not of options.c): must-reject => EINVAL and zero pipe/open/dup/fork "
              "calls; must-accept => not rejected; out-of-range type => negative, nothing leaked; the two documented-ambiguous zones accept either. Every "
              "distinct valid combination of the quick space (683) is then started with the real exec and its effective redirect per stream is confirmed "
-             "with the C10 identity oracle."),
+             "with the C10 identity oracle; unknown redirect types are started with resources available too (negative result, no process created)."),
     "C03": dict(
         cat="model_checking", design="3/C03",
         technique="exhaustive enumeration of argument vectors / environment lists / path forms over a fixed byte alphabet against the real library (emulated exec for the bulk, real exec for a subset and every path case; sanitizer build for the path-length cases)",
@@ -203,7 +203,7 @@ CHECKS = {
              "shows no descriptor of the other thread's pipes, and right after a thread's close(IN) its own child sees EOF with nobody else moving - all "
              "schedules with <=1 preemption (thorough <=2), emulated and real exec. (A) writer thread (3 + cap+1 bytes, close) and reader thread on one "
              "echo child, <=2 (3) preemptions: reader gets exactly the writer's bytes. (C) reproc_strerror from two threads with a switch between call "
-             "and use. (E) one thread whose starts fail after the fork beside another thread's whole life cycle: every waitpid/kill names the caller's own child. (D) two threads each draining its own echo child with reproc_drain, the sink yielding before it looks at its chunk: only its own bytes. "
+             "and use. (G) two threads running short life cycles with one close() of the library interrupted. (E) one thread whose starts fail after the fork beside another thread's whole life cycle: every waitpid/kill names the caller's own child. (D) two threads each draining its own echo child with reproc_drain, the sink yielding before it looks at its chunk: only its own bytes. "
              "Data races below call granularity are looked for by a free-running TSan build (60 / 400 runs of three concurrent life cycles, two concurrent drains of 64 KiB and a "
              "reader/writer pair on real cat/sh children): a monitor, not an enumeration."),
 }
